@@ -584,6 +584,12 @@ fn ubj(rng: &mut Rng, ctx: &mut Ctx) {
           match c2 { Ok(c2) => if a.is_ok() != c2.is_ok() || (a.is_ok() && a != c2) { fails.push(("C16".into(), format!("metadata read through short reads {:?} differs from the read from memory: {:?} vs {:?}", plan, c2.as_ref().map(|s| &s[..s.len().min(60)]), a.as_ref().map(|s| &s[..s.len().min(60)])))); },
               Err(_) => fails.push(("C16".into(), "metadata reader panicked over a source with short reads".into())) } }
         let mut arg = body.clone(); arg.push(b'}'); arg.push(b'}');
+        // the JSON copy: serde_json's text of the tree the reader returned, against the model's writer (and reader) on the same tree
+        if let Ok(g) = slippi::read(Cursor::new(&file), None) { if let Some(m) = &g.metadata {
+            let j = serde_json::to_vec(m).unwrap();
+            let mut cj = Case::new(format!("jsonw {}", hex(&arg)), format!("ok {} back=true", hex(&j))); cj.tags = vec!["jsonw".into()];
+            match serde_json::from_slice::<serde_json::Map<String, serde_json::Value>>(&j) { Ok(m2) => if json_dump(&m2) != json_dump(m) || m2.keys().collect::<Vec<_>>() != m.keys().collect::<Vec<_>>() { cj.fail("C16", "JSON copy of the metadata does not read back as the same tree / key order"); }, Err(e) => cj.fail("C16", format!("JSON copy of the metadata is not valid JSON: {}", e)) }
+            ctx.push(cj); } }
         let mut c = Case::new(format!("ubj {}", hex(&arg)), line); c.oracle = fails; c.tags = vec![format!("len{}", (body.len() / 50).min(9)), format!("clean{}", clean as u8)];
         ctx.push(c);
     }
